@@ -45,7 +45,14 @@ ASSUME = [
     "are accepted; draining is demanded only when xcm_receive itself is the first call to meet the close",
     "a close during which the environment refused the closing side's own writes (TLS close_notify) counts as a break: any sticky "
     "terminal report is accepted; a raw TLS peer that sends FIN without close_notify may be reported as 0/EPIPE or as EPROTO and "
-    "owes no drain; a TLS peer reset after its complete close_notify may be reported as orderly close",
+    "owes no drain, and a 0/EPIPE report of such a death may be superseded once by EPROTO when a later read meets the truncated "
+    "stream (EPROTO then sticks); a TLS peer that closed with xcm_close but whose TCP close became a reset (e.g. a client that never read its "
+    "NewSessionTickets) may be reported as orderly close or as ECONNRESET and enjoys the same latitude as an orderly close; a "
+    "connection that ends before the other side has accepted it is not judged for faithfulness (the emulation answers recv with "
+    "end-of-stream and send with a reset there)",
+    "OpenSSL is trusted: it deliberately ignores ECONNRESET/EPIPE while flushing the TLS 1.3 NewSessionTicket; such a failure "
+    "met inside xcm_receive need not be reported by that call, data that had arrived may still be returned, and the eventual "
+    "report may be the errno or EPROTO (truncated stream) - reported as an INFO line",
     "'same errno afterwards' is demanded on the TCP-based transports only; on ux/uxf the clauses are: nothing succeeds after a "
     "terminal report, 0 sticks, send after the close fails with EPIPE",
     "message lengths {1,2,3} (+300, +65535 in the maximal-frame cut set); payload bytes patterned (data independence of framing)",
